@@ -169,13 +169,13 @@ Definition fmtpart (name : list N) (z : Z) : list N :=
    Years are 1000..9999 (the regexes have four digits); the two-digit forms YY/GG are considered for
    2001..2099 only (see yy_century_refuted); weeks %W/%U for 0..52 (see week53_refuted). *)
 Definition fin_cal_spec : list (list N * Z * N) :=
-  [ (P_YYYY, 1000, 9000); (P_GGGG, 1000, 9000);
-    (P_YY, 2001, 99); (P_GG, 2001, 99);
-    (P_0Y, 1000, 9000); (P_0G, 1000, 9000);
-    (P_Q, 1, 4); (P_MM, 1, 12); (P_0M, 1, 12); (P_DD, 1, 31); (P_0D, 1, 31);
-    (P_JJJ, 1, 366); (P_00J, 1, 366);
-    (P_WW, 0, 53); (P_0W, 0, 53); (P_UU, 0, 53); (P_0U, 0, 53);
-    (P_VV, 1, 53); (P_0V, 1, 53) ]%Z%N.
+  [ (P_YYYY, 1000%Z, 9000%N); (P_GGGG, 1000%Z, 9000%N);
+    (P_YY, 2001%Z, 99%N); (P_GG, 2001%Z, 99%N);
+    (P_0Y, 1000%Z, 9000%N); (P_0G, 1000%Z, 9000%N);
+    (P_Q, 1%Z, 4%N); (P_MM, 1%Z, 12%N); (P_0M, 1%Z, 12%N); (P_DD, 1%Z, 31%N); (P_0D, 1%Z, 31%N);
+    (P_JJJ, 1%Z, 366%N); (P_00J, 1%Z, 366%N);
+    (P_WW, 0%Z, 53%N); (P_0W, 0%Z, 53%N); (P_UU, 0%Z, 53%N); (P_0U, 0%Z, 53%N);
+    (P_VV, 1%Z, 53%N); (P_0V, 1%Z, 53%N) ].
 
 (* the keys of PEP440_TAG_BY_TAG that the TAG regex accepts / the non-empty values of that table *)
 Definition tag_texts : list (list N) :=
@@ -362,7 +362,7 @@ Corollary week53_refuted_state : forall v,
   (v_week_u v = Some 53%Z -> re_fullmatch_first (pre P_UU) (ptext v P_UU) = None
                              /\ re_fullmatch_first (pre P_0U) (ptext v P_0U) = None).
 Proof.
-  intros v. destruct v. cbn [v_week_w v_week_u].
+  intros v. destruct v. simpl.
   split; intros ->; split; vm_compute; reflexivity.
 Qed.
 (* the two-digit year parts YY / GG render a year ending in 00 as "0", which [1-9][0-9]? rejects *)
@@ -372,9 +372,9 @@ Proof. intros name [<-|[<-|[]]]; (split; vm_compute; reflexivity). Qed.
 
 (* ------------------------------------------------------------------ 3. instances: the premises are satisfiable *)
 Lemma get_year_y v y : v_year_y v = Some y -> get_field v n_year_y = Some (Some (FInt y)).
-Proof. destruct v; cbn [v_year_y]; intros ->; reflexivity. Qed.
+Proof. destruct v; simpl; intros ->; reflexivity. Qed.
 Lemma get_month v m : v_month v = Some m -> get_field v n_month = Some (Some (FInt m)).
-Proof. destruct v; cbn [v_month]; intros ->; reflexivity. Qed.
+Proof. destruct v; simpl; intros ->; reflexivity. Qed.
 
 Lemma nodigit_dec_false n rest : nodigit_head (dec n ++ rest) = false.
 Proof.
